@@ -181,6 +181,15 @@ def run(ctx):
         # keep load commands from pulling in other files: build only plans without load
         buildable = not any(c[0] in load_word for c in rec)
         base = flolib.build_text(ctx.work, canon_txt) if buildable else None
+        if buildable:
+            # dispatch is a function of the command list: the same house without any file / layout
+            donly = flolib.build_from_commands(rec)
+            same = json.dumps(donly, sort_keys=True) == json.dumps(base, sort_keys=True)
+            ctx.case({"plan": os.path.basename(path), "dispatch_only": donly[0], "same": same},
+                     nontrivial=True, kind="D:dispatch-only-%s" % donly[0])
+            if not same:
+                ctx.tie_broken("correspondence", "house built by dispatch alone differs from the file build",
+                               "plan=%s" % os.path.basename(path))
         for j in range(ctx.n(2, 10)):
             lay = L.Layouter(ctx.rng, reserved, load_word, tabs=(j % 2 == 0), wild=(j % 3 == 0))
             txt = add_doc(toks, lay, "D:plan-layout", coq_doc=(len(rec) <= 40 and j == 0))
@@ -198,6 +207,50 @@ def run(ctx):
                     ctx.tie_broken("correspondence", "built house differs under a grammar layout",
                                    "plan=%s layout script:\n%s" % (os.path.basename(path), txt[:600]))
     ctx.extra["plans"] = nplans
+
+    # ---- E: the load verb over several files ------------------------------------------------
+    lcases, lmetas = [], []
+    names = ["a.flo", "b.flo", "c.flo"]
+    for i in range(ctx.n(60, 600)):
+        lay = L.Layouter(ctx.rng, reserved, load_word, tabs=(i % 2 == 0), wild=(i % 3 == 0))
+        present = [n for n in names if ctx.rng.random() < 0.85]
+
+        def cmds_for(level):
+            out = []
+            for _ in range(ctx.rng.randint(1, 4)):
+                x = ctx.rng.random()
+                later = names[level:]
+                if x < 0.35 and later:
+                    out.append(["load", ctx.rng.choice(later)])
+                elif x < 0.40:
+                    out.append(ctx.rng.choice([["load"], ["load", "a.flo", "extra"], ["lo", "x"]]))
+                else:
+                    out.append([ctx.rng.choice(heads)] + [ctx.rng.choice(okwords) for _ in range(ctx.rng.randint(0, 4))])
+            return out
+        docs = {}
+        for lvl, nm in enumerate(names):
+            if nm in present:
+                docs[nm] = L.render(lay.document([[L.classify(w) for w in c] for c in cmds_for(lvl + 1)]))
+        rootlines = L.render(lay.document([[L.classify(w) for w in c] for c in cmds_for(0)]))
+        files = {nm: file_text(ls) for nm, ls in docs.items()}
+        files["root.flo"] = file_text(rootlines)
+        for nm in names:            # a file of an earlier case must not linger
+            pth = os.path.join(ctx.work, nm)
+            if nm not in files and os.path.exists(pth):
+                os.remove(pth)
+        rec, ok = flolib.record_stream(ctx.work, files, "root.flo")
+        ctx.case({"files": files, "stream": rec, "ran_to_end": ok}, nontrivial=any(c[0] == "load" for c in rec),
+                 kind="E:load-%s" % ("end" if ok else "stopped"))
+        fs = "(fun n => %s None)" % "".join("if leqb Z.eqb n %s then Some %s else " % (L.cstr(nm), L.c_lines(ls))
+                                             for nm, ls in docs.items())
+        lcases.append(("stream_of_files %s 6 %s" % (fs, L.c_lines(rootlines)),
+                       "(%s, %s)" % (L.c_cmds(rec), "true" if ok else "false")))
+        lmetas.append((files, rec, ok))
+    lbad = ctx.coq_cases(HEADER, "(fun a b => cmds_eqb (fst a) (fst b) && Bool.eqb (snd a) (snd b))", lcases,
+                         shard=20, name="load")
+    for i in lbad[:3]:
+        ctx.tie_broken("correspondence", "C16 load model vs Builder", "files=%r implementation=%r" % lmetas[i][:2])
+    ctx.extra["load_mismatches"] = len(lbad)
     ctx.extra["plan_layout_builds"] = nbuilt
 
     ctx.extra["t_impl_s"] = round(__import__("time").time() - ctx.t0, 1)
